@@ -18,7 +18,15 @@ Chars == {"x", "/", "~", "0", "1", "%", "#", "?", " ", "{"}
 RECURSIVE Words(_)
 Words(n) == IF n = 0 THEN {<<>>}
             ELSE Words(n - 1) \cup {Append(w, c) : w \in {v \in Words(n - 1) : Len(v) = n - 1}, c \in Chars}
-Names == Words(MaxLen) \ {<<>>}
+\* names in which "%" is followed by two hexadecimal digits: text that looks percent-encoded but is
+\* the literal member name (a second percent-decoding anywhere on the way would read "%41" as "A",
+\* "%2541" as "%41", "%20" as " "), together with the names such a decoding would yield (the twins)
+Hex == {"0", "1", "2", "4", "5", "A", "f"}
+PctWords == {<<"%", a, b>> : a, b \in Hex}
+            \cup {<<"x", "%", "4", "1">>, <<"%", "4", "1", "x">>, <<"%", "2", "5", "4", "1">>, <<"%", "%", "4", "1">>,
+                  <<"%", "2", "5", "2", "5">>, <<"~", "%", "2", "F">>, <<"/", "%", "7", "e", "1">>}
+            \cup {<<"A">>, <<"x", "A">>, <<"A", "x">>, <<"%", "A">>, <<"!">>, <<"$">>}
+Names == (Words(MaxLen) \ {<<>>}) \cup PctWords
 
 \* RFC 6901 section 3/4
 EscChar(c) == IF c = "~" THEN <<"~", "0">> ELSE IF c = "/" THEN <<"~", "1">> ELSE <<c>>
